@@ -630,3 +630,4 @@ PROPS["C16"]["rule"] += (" In a third of the in-memory cases the cron's context 
 PROPS["C17"]["rule"] += (" The concurrent part also runs with a 1 ms TTL (entries expire between and during requests): every client writes "
                          "1-5 facts and reads each one back as soon as the write is acknowledged; the read must find it.")
 PROPS["C09"]["rule"] += " After every operation an embedded ('evaluate!') rule is evaluated at every location with a context that was last used for another location: its action must run in, and write to, the location it was sent to."
+PROPS["C15"]["rule"] += " Schedules in the sys.System part are either recurring or bounded (a year-bounded cron expression with exactly one occurrence); a bounded rule must run once, never twice, and a restart after its occurrence must still load the location."
